@@ -240,7 +240,7 @@ def inherited_table_contract():
         module, cname, fd = I.src.locate("%s:%s" % (MOD, QUAL))
         a = [i for i, x in enumerate(fd.body) if _ast.unparse(x) == "_inherited = []"]
         b = [i for i, x in enumerate(fd.body) if isinstance(x, _ast.Assign) and _ast.unparse(x.targets[0]) == "mcs.param._depends"]
-        if len(a) != 1 or len(b) != 1 or b[0] != a[0] + 2 or not isinstance(fd.body[a[0] + 1], _ast.For):
+        if len(a) != 1 or len(b) != 1 or b[0] <= a[0]:
             raise OutOfReach("the inherited-table block was not found in ParameterizedMetaclass.__init__")
         holder["info"] = info
         st.env = dict(info["env"])
